@@ -3,7 +3,7 @@
    from `%`, TypeError from `+`/`<<` on the wrong class, ValueError from the constructor — is a
    value of the exception monad. Statements only. *)
 From MV Require Import Base Regex Typing Assembly Pipeline Py PyObj SrcEquivRegex SrcEquivRecord SrcEquivTyping
-     SrcEquivAssembly SrcCorollaries.
+     SrcEquivAssembly SrcCorollaries Record PyHeap SrcEquivCite SrcEquivAsmHeap SrcCorollariesHeap.
 From MV.Gen Require Import Src.
 Open Scope Z_scope.
 
@@ -29,3 +29,25 @@ Print Assumptions C17_src_assemble.
 Theorem C17_src_shaped : forall e, shaped_ent e -> good_ent e.
 Proof. exact shaped_good. Qed.
 Print Assumptions C17_src_shaped.
+
+(* the same at the entry point: vector.assemble(module, *modules, **kwargs) AS REGENERATED, with
+   its citation bookkeeping and metadata, on any mix of valid and invalid records of classes of
+   the common shape whose citations (if any) dereference, returns or raises one of the four
+   documented errors only *)
+Theorem C17_src_entry_point : forall vector m ms kw hd,
+  good_ent vector -> Forall good_ent (m :: ms) ->
+  map ent_id (m :: ms) = seq 0 (List.length (m :: ms)) -> ent_id vector = List.length (m :: ms) ->
+  deref_elems ((m :: ms) ++ [vector]) [] (heap_of (vector :: m :: ms)) = Ok hd ->
+  match fst (run_assemble (S (S (List.length (m :: ms)))) vector (m :: ms) kw) with
+  | Ok _ => True
+  | Err x => documented x
+  end.
+Proof. exact entry_point_total. Qed.
+Print Assumptions C17_src_entry_point.
+
+(* and what can stop the dereferencing of a citation: TypeError (not a string), ValueError (not
+   of the bracketed form, or no digits), IndexError (out of range) — nothing else *)
+Theorem C17_src_deref_errors : forall refs c e,
+  deref_cit refs c = Err e -> e = XTypeError \/ e = XValueError \/ e = XIndexError.
+Proof. exact deref_cit_errors. Qed.
+Print Assumptions C17_src_deref_errors.
